@@ -40,13 +40,18 @@ def cases(tier):
             if part == "lift" and s["org"] == 1 and tier == "quick":
                 continue
             out.append({"grid": s, "part": part})
+    for s in U.big_specs():
+        out.append({"grid": s, "part": "formula"})
+        out.append({"grid": s, "part": "upwind_big"})
     return out
 
 
 def weight(case):
     sh = case["grid"]["shape"]
     n = int(np.prod([k + 2 for k in sh]))
-    return n * {"formula": 3, "locality": n / 4.0, "upwind": 3, "lift": 4 ** (max(sh) + 2) / 10.0}[case["part"]]
+    if max(sh) > 8:
+        return n
+    return n * {"formula": 3, "locality": n / 4.0, "upwind": 3, "upwind_big": 1, "lift": 4 ** (max(sh) + 2) / 10.0}[case["part"]]
 
 
 def ref_mean(name, a, b, da, db):
@@ -207,7 +212,11 @@ def _locality_part(g, res):
                                                                % (name, U.spec_id(g.spec), ax, idx, list(c)), "detail": {}})
 
 
-def _upwind_part(g, res):
+def _upwind_big_part(g, res):
+    _upwind_part(g, res, big=True)
+
+
+def _upwind_part(g, res, big=False):
     F = res["findings"]
     base = U.generic_array(g.fshape, tag=81, signed=True)
     phi = g.cell(base)
@@ -225,12 +234,16 @@ def _upwind_part(g, res):
             return 0.5 * (a + b) if idx[ax] == 0 else a          # inflow through the low boundary
         return 0.5 * (a + b) if idx[ax] == g.dims[ax] else b     # inflow through the high boundary
     pats = []
-    for (ax, idx) in g.faces:
+    for (ax, idx) in (g.faces if not big else []):
         for val in (1.0, -1.0, 0.0):
             arrs = [a.copy() for a in gen]
             arrs[ax][idx] = val
             pats.append(arrs)
     pats += [[np.abs(a) for a in gen], [-np.abs(a) for a in gen], [np.zeros_like(a) for a in gen], gen]
+    if big:     # many cells: checkerboards of +, -, 0
+        for k in (2, 3):
+            pats.append([np.where(np.indices(a.shape).sum(axis=0) % k == 0, np.abs(a), np.where(np.indices(a.shape).sum(axis=0) % k == 1, -np.abs(a), 0.0))
+                         for a in gen])
     # velocities of very small / very large magnitude (creeping flow in SI units): only the sign counts
     for mag in (2.0 ** -40, 2.0 ** -80, 2.0 ** 50, 5e-324):
         pats += [[a * mag if mag > 1e-300 else np.sign(a) * mag for a in gen],
@@ -312,7 +325,8 @@ def run_case(case):
     g = Grid(case["grid"])
     res = {"evals": 0, "nontrivial": 0, "findings": [], "outcomes": {}}
     part = case["part"]
-    {"formula": _formula_part, "locality": _locality_part, "upwind": _upwind_part, "lift": _lift_part}[part](g, res)
+    {"formula": _formula_part, "locality": _locality_part, "upwind": _upwind_part, "lift": _lift_part,
+     "upwind_big": _upwind_big_part}[part](g, res)
     res["outcomes"] = {"%s:%s" % (part, "ok" if not res["findings"] else "viol"): 1}
     res["sample"] = {"grid": U.spec_id(g.spec), "part": part}
     return res
